@@ -44,6 +44,13 @@ theorem get?_eq_some_iff {d : List α} (hd : WfDict d) (k : String) (y : α) :
 theorem hasKey_iff_get? (d : List α) (k : String) : hasKey d k = true ↔ (get? d k).isSome = true := by
   simp [get?, hasKey, List.find?_isSome]
 
+/-- `hasKey` reads the key list only -/
+theorem hasKey_of_names (b b' : List α) (h : b.map name = b'.map name) (k : String) :
+    hasKey b k = hasKey b' k := by
+  have e : ∀ d : List α, hasKey d k = (d.map name).any (fun n => n == k) := by
+    intro d; simp [hasKey, List.any_map, Function.comp_def]
+  rw [e b, e b', h]
+
 theorem mem_dictAdded (a b : List α) (x : α) : x ∈ dictAdded a b ↔ x ∈ b ∧ hasKey a (name x) = false := by
   simp [dictAdded, List.mem_filter]
 
